@@ -5,6 +5,7 @@
 //! op lines, then executed one by one against the real crates under `catch_unwind`.
 
 mod proto;
+mod frame;
 mod tags;
 mod util;
 
@@ -27,6 +28,7 @@ struct Family {
 const FAMILIES: &[Family] = &[
     Family { name: "tags", gen: tags::gen, exec: tags::exec },
     Family { name: "proto", gen: proto::gen, exec: proto::exec },
+    Family { name: "frame", gen: frame::gen, exec: frame::exec },
 ];
 
 fn main() {
